@@ -3,6 +3,7 @@ package props
 import (
 	"fmt"
 	"os"
+	"reflect"
 	"strings"
 	"testing"
 	"time"
@@ -59,6 +60,52 @@ func apiEnv(c *APICase) (v interface{}, okk bool) {
 		return nil, false
 	}
 	return out, true
+}
+
+// sameGoTypeVariants: values of the very Go type of env (a struct or a pointer to one) whose
+// yae type is another one: the zero value (nil pointers / slices / maps, nil interfaces), and
+// copies in which every interface{} field holds a long string, a list, a number.
+func sameGoTypeVariants(env interface{}) []interface{} {
+	if env == nil {
+		return nil
+	}
+	rv := reflect.ValueOf(env)
+	st := rv.Type()
+	ptr := st.Kind() == reflect.Ptr
+	if ptr {
+		if rv.IsNil() {
+			return nil
+		}
+		st = st.Elem()
+		rv = rv.Elem()
+	}
+	if st.Kind() != reflect.Struct {
+		return nil
+	}
+	wrap := func(v reflect.Value) interface{} {
+		if ptr {
+			p := reflect.New(st)
+			p.Elem().Set(v)
+			return p.Interface()
+		}
+		return v.Interface()
+	}
+	out := []interface{}{wrap(reflect.Zero(st))}
+	for _, filler := range []interface{}{strings.Repeat("A", 64), []interface{}{1.0}, 7.0, map[string]interface{}{"a": true}} {
+		cp := reflect.New(st).Elem()
+		cp.Set(rv)
+		changed := false
+		for i := 0; i < st.NumField(); i++ {
+			if st.Field(i).Type.Kind() == reflect.Interface && st.Field(i).Type.NumMethod() == 0 && cp.Field(i).CanSet() {
+				cp.Field(i).Set(reflect.ValueOf(filler))
+				changed = true
+			}
+		}
+		if changed {
+			out = append(out, wrap(cp))
+		}
+	}
+	return out
 }
 
 func checkAPI(c *APICase) *Outcome {
@@ -122,6 +169,7 @@ func checkAPI(c *APICase) *Outcome {
 				others = append(others, v)
 			}
 		}
+		others = append(others, sameGoTypeVariants(env)...)
 		for _, other := range others {
 			var rv *val.Val
 			var rerr error
@@ -616,7 +664,7 @@ var evalScaleCases = []*EvalScaleCase{
 }
 
 func TestC12(t *testing.T) {
-	R.Rule = "source strings up to 256 bytes (quick) / 4 KiB (thorough): random bytes, random runes, token soup from the lexicon, grammar-aware edits (insert / delete / duplicate / swap) of valid programs taken from a seed list and from the program generator, bracket nests to depth 12, valid programs; environments: none, Go host values built by reflection (structs, maps, slices, pointers, interface parts, nil parts, unsupported kinds), or one of the fixed hostile host values (cyclic maps / slices / struct rings, self-referential pointers, recursive Go types with nil links, nesting beyond conv's limit, typed nils, unsupported kinds), also as run-time environment of a Callable compiled against something else; accepted sources are also passed to Debug and Eval with blanks / line breaks before and after them; every call of Eval, Compile (two back ends), the Callable (same environment, a mismatching map, nil, a number, an unsupported struct) and Debug must return without panicking, with a value or an error, within 5 s (a slower call is repeated three times and reported only if slow every time; a call that does not return within 180 s aborts the run as a violation); scaling class: compile time against repetition count 2..60 for 45 nest, chain and prefix shapes must not grow by more than 2.5x per two levels over four consecutive steps from depth 12 on (or 1.7x over five steps from depth 30 on); eval-scaling class: 69 closed accepted shapes (nested / chained conditionals, short-circuit operators, user lazy functions, defaults, strict and host calls, literals, selectors, nests in the index / key operand of selectors, method notation) compiled and evaluated on each of the four back ends at repetition counts 2..60, compile time (whole pipeline) and evaluation time under the same growth rule; capacity class: sources of 60-100 KB at the VM's encoding limits (conditionals whose code crosses the 16-bit jump range; thorough: further wide / deep shapes) compiled and invoked twice through the public API on both facade back ends; non-trivial = input accepted, or rejected with more than one token"
+	R.Rule = "source strings up to 256 bytes (quick) / 4 KiB (thorough): random bytes, random runes, token soup from the lexicon, grammar-aware edits (insert / delete / duplicate / swap) of valid programs taken from a seed list and from the program generator, bracket nests to depth 12, valid programs; environments: none, Go host values built by reflection (structs, maps, slices, pointers, interface parts, nil parts, unsupported kinds), or one of the fixed hostile host values (cyclic maps / slices / struct rings, self-referential pointers, recursive Go types with nil links, nesting beyond conv's limit, typed nils, unsupported kinds), also as run-time environment of a Callable compiled against something else; accepted sources are also passed to Debug and Eval with blanks / line breaks before and after them; every call of Eval, Compile (two back ends), the Callable (same environment, a mismatching map, nil, a number, an unsupported struct, values of the very same Go struct type that have another yae type: the zero value, interface{} fields holding a string / list / number / map) and Debug must return without panicking, with a value or an error, within 5 s (a slower call is repeated three times and reported only if slow every time; a call that does not return within 180 s aborts the run as a violation); scaling class: compile time against repetition count 2..60 for 45 nest, chain and prefix shapes must not grow by more than 2.5x per two levels over four consecutive steps from depth 12 on (or 1.7x over five steps from depth 30 on); eval-scaling class: 69 closed accepted shapes (nested / chained conditionals, short-circuit operators, user lazy functions, defaults, strict and host calls, literals, selectors, nests in the index / key operand of selectors, method notation) compiled and evaluated on each of the four back ends at repetition counts 2..60, compile time (whole pipeline) and evaluation time under the same growth rule; capacity class: sources of 60-100 KB at the VM's encoding limits (conditionals whose code crosses the 16-bit jump range; thorough: further wide / deep shapes) compiled and invoked twice through the public API on both facade back ends; non-trivial = input accepted, or rejected with more than one token"
 	R.Assume = []string{"termination is only observed under the stated budgets; Go stack exhaustion by inputs beyond 4 KiB is not probed"}
 	reportKnown(t, "C12")
 	runRegress(t, "C12")
